@@ -15,6 +15,7 @@ inductive Beh where
   | panic
   | file (code declared : Nat) (actual : Option Nat)   -- response with a file body (`none` = file missing)
   | events (n : Nat) (code : Nat := 200)                -- event stream of n messages, then closed
+  | unwritable                                          -- a response with a Content-Length field of its own: refused before any byte
   | uploadThenEvents (k : Nat)                          -- fetch the body, then an event stream of the first min k 50 messages
 deriving Repr, DecidableEq
 
@@ -43,6 +44,7 @@ def parseBeh (s : String) : Beh :=
   if k == "X" then .events n 503 else
   if k == "S" then .uploadThenEvents n else
   if k == "Q" then .getBody 1000000 else
+  if k == "U" then .unwritable else
   if k == "w" then .getBody 1000000 else
   if k == "n" then .normal n else if k == "g" then .getBody n else if k == "a" then .always n
   else if k == "d" then .drop else .panic
@@ -95,6 +97,7 @@ def handlerOf (reqs : List SReq) (v : ReqView) : HandlerOut :=
   | .always m => .getBody m
   | .drop => .drop
   | .panic => .panic
+  | .unwritable => .normal { Response.text 200 (str "x") with headers := [⟨str "Content-Length", str "1"⟩] }
   | .uploadThenEvents k =>
     match v.body with
     | none => .getBody 1000000
@@ -241,7 +244,7 @@ def handle (tag : String) (args : List String) (obs : String) : String :=
         else if _sched.startsWith "busy" then full.take ((_sched.drop 4).toString.toNat?.getD full.length)
         -- `rst<N>`: the first N bytes, then the client resets the connection (it never reads: its transcript is empty)
         else if _sched.startsWith "rst" then full.take ((_sched.drop 3).toString.toNat?.getD full.length) else full
-      let cfg : Cfg := { smallBodyLen := s, cacheDir := cache != "0", fs := { createFails := cache == "2" } }
+      let cfg : Cfg := { smallBodyLen := s, cacheDir := cache != "0", fs := { createFails := cache == "2", writeFails := cache == "3" } }
       let (c, calls1) := handleConn false C05.simpleUrl cfg (handlerOf reqs) (max 64 (reqs.length + 8))
         { input := all, inputErr := _sched.startsWith "rst" } []
       -- `par3`: three connections send the same bytes; the merged call log is compared sorted
@@ -272,6 +275,7 @@ def handle (tag : String) (args : List String) (obs : String) : String :=
       let model := s!"calls={"|".intercalate callStrs} wire={encBytes shownWire} files={c.live.length}{earlyS}{outlivedS}"
       let verdict :=
         if obs == "PANIC" then "FAIL:panic:" else
+        if obs == "no-prlimit" then "free" else
         match obsGet obs "calls", obsWire, obsGet obs "files" with
         | some cs, some wire, some files =>
           let obsCalls := splitNonEmpty cs "|"
